@@ -45,7 +45,8 @@ def check_stat(ctx, case):
         warnings.simplefilter('ignore')
         for bi, (a, b) in enumerate(zip(cuts, cuts[1:])):
             if b > a:
-                must(case, '%s.update' % kind, obj.update, traces[a:b], data[a:b])
+                lt, ld = case.get('layout') or ('C', 'C')
+                must(case, '%s.update' % kind, obj.update, gen.relayout(traces[a:b], lt), gen.relayout(data[a:b], ld))
                 if bi < len(mid) and mid[bi]:
                     must(case, '%s.compute between batches' % kind, obj.compute)   # must not disturb what follows
         res = must(case, '%s.compute' % kind, obj.compute)
@@ -84,20 +85,28 @@ def check_stat(ctx, case):
                 raise Violation('%s: |r| = %r > 1' % (kind, g), case)
     nontrivial = (n_undef > 0 and n_def > 0) or data.ndim >= 3
     ctx.case(case, nontrivial, ['kind:' + kind, 'prec:' + precision, 'regime:' + regime, 'word_ndim:%d' % (data.ndim - 1),
-                                'has_undefined' if n_undef else 'all_defined', 'batches:%d' % (len(cuts) - 1), 'tdtype:' + str(traces.dtype)] + (['compute_before_final'] if any(mid) or case.get('compute_twice') else []))
+                                'has_undefined' if n_undef else 'all_defined', 'batches:%d' % (len(cuts) - 1), 'tdtype:' + str(traces.dtype), 'layout:%s/%s' % tuple(case.get('layout') or ('C', 'C'))] + (['compute_before_final'] if any(mid) or case.get('compute_twice') else []))
 
 
 def replay(ctx, case):
     check_stat(ctx, case)
 
 
+BIG_SIZES = [4097, 8193, 16385, 20000, 32769, 65537]
+
+
 @st.composite
-def stat_cases(draw, kind):
+def stat_cases(draw, kind, large=False):
     precision = draw(st.sampled_from(['float32', 'float64']))
-    regime = draw(st.sampled_from(['exact', 'exact', 'rounded']))
+    regime = draw(st.sampled_from(['exact', 'exact', 'rounded'])) if not large else 'exact'
     n = draw(st.one_of(st.integers(2, 12), st.integers(2, 200)))
     s = draw(st.integers(1, 8))
     wshape = draw(st.sampled_from([(), (1,), (2,), (3,), (2, 2), (3, 2), (2, 1, 2)]))
+    if large:
+        # tens of thousands of traces in one or a few very large batches (integer-valued, so the exact oracle applies)
+        n = draw(st.sampled_from(BIG_SIZES)) + draw(st.integers(-2, 2))
+        s = draw(st.integers(1, 2))
+        wshape = draw(st.sampled_from([(), (2,), (2, 2)]))
     W = int(np.prod(wshape)) if wshape else 1
     B = _bound(n, precision)
     seed64 = draw(st.integers(0, 2 ** 63))
@@ -173,12 +182,14 @@ def stat_cases(draw, kind):
     ncuts = draw(st.integers(0, 2))
     cuts = sorted(draw(st.lists(st.integers(1, n - 1), min_size=ncuts, max_size=ncuts))) if n > 1 else []
     mid = [draw(st.booleans()) for _ in range(len(cuts) + 1)]
-    return {'kind': 'stat', 'dist': kind, 'precision': precision, 'regime': regime, 'traces': traces, 'data': data, 'cuts': cuts,
+    # memory layout of what the caller passes: C order, Fortran order, strided and negative-stride views (values are the same)
+    layout = [draw(st.sampled_from(gen.LAYOUTS)), draw(st.sampled_from(gen.LAYOUTS))]
+    return {'kind': 'stat', 'dist': kind, 'precision': precision, 'regime': regime, 'traces': traces, 'data': data, 'cuts': cuts, 'layout': layout,
             'mid_computes': mid, 'compute_twice': draw(st.booleans())}
 
 
-def unit_generated(ctx, kind, n):
-    hyp.run(ctx, stat_cases(kind), check_stat, n)
+def unit_generated(ctx, kind, n, large=False):
+    hyp.run(ctx, stat_cases(kind, large), check_stat, n, shrink_budget=None if not large else 10)
 
 
 def units(tier):
@@ -187,6 +198,8 @@ def units(tier):
     for kind in ('cpa', 'cpa_alt', 'dpa'):
         for i in range(4 if q else 10):
             us.append({'name': 'gen-%s-%d' % (kind, i), 'fn': 'unit_generated', 'kwargs': {'kind': kind, 'n': 300 if q else 8000}})
+    for kind in ('cpa', 'cpa_alt', 'dpa'):
+        us.append({'name': 'large-%s' % kind, 'fn': 'unit_generated', 'kwargs': {'kind': kind, 'n': 20 if q else 300, 'large': True}})
     return us
 
 
